@@ -46,14 +46,15 @@ CHECKS = {
         ref="6 (C09)", technique="Coq proof (characterisation of the interval denotation by cut positions) + exhaustive small-scope correspondence",
         note="Assumes C01/C02 of the scheme. The empty constraint list is not a vers range and is excluded (DESIGN section 9)."),
     "C10": dict(
-        text="Proved in Coq for every version type and every range/known list: normalize depends on the range only through membership of the known versions "
-             "(hence equal results for ranges that agree on them), no member gives the empty range, every emitted segment is one exact known version or one closed "
-             "interval between known versions, and from_versions contains exactly the versions equal to a listed one. The remaining clauses (result validates, same "
-             "membership on known versions, independence of order and duplication) are stated as C10_full_statement, not yet proved, and are decided by evaluating all "
-             "clauses on the implementation over every well-formed pattern up to the tier bound x every subset of the probe grid as universe (shuffled, duplicated, "
-             "respelled), together with the model/implementation correspondence of normalize().",
-        ref="6 (C10)", technique="Coq proof of part of the statement (labelled partial) + exhaustive small-scope evaluation and model correspondence",
-        note="PARTIAL: validity/membership/order-independence of normalize() are checked exhaustively in small scope on the implementation, not proved. Assumes C01/C02/C12 of the scheme."),
+        text="Proved in Coq for every version type with a total preorder, every well-formed range and every list of known versions of any length, order and duplication: "
+             "the code-shaped model of normalize() returns the constraints of a flat expression whose alternatives are the maximal runs of contiguous members of the sorted "
+             "known list (one exact version or one closed interval each; runs are separated by a non-member, hence strictly ascending); the result validates; it contains a "
+             "known version exactly when the original did and never raises; it is empty when no known version is a member; it depends on the range only through membership of "
+             "the known versions; two known lists with the same elements give ranges that contain the same versions; from_versions contains exactly the versions equal to a "
+             "listed one. The model is tied to /repo by the correspondence of normalize() and all clauses are also evaluated on the implementation over every well-formed "
+             "pattern up to the tier bound x every subset of the probe grid as universe (shuffled, duplicated, respelled).",
+        ref="6 (C10)", technique="Coq proof (group structure of the runs over a sorted list, reduced to the interval-conversion theorems of C06 and to C04/C07) + exhaustive small-scope evaluation and model correspondence",
+        note="Order/duplication independence is proved as equality of membership for all versions (the literal constraint texts may differ in the spelling of equal versions). Assumes C01/C02/C12 of the scheme."),
     "C14": dict(
         text="Finite theorems (vm_compute over the enumerated class tables, lifted by forallb_forall) re-checked on every run against tables "
              "regenerated from the live classes: every ordering operator between unrelated version classes ends in TypeError under CPython's "
